@@ -93,7 +93,9 @@ def evaluate(prop, variants, base_keys, seed=0, src_root=None, jobs=None):
             verdict = "skipped"
         elif status == "broken":
             # a fire variant answered with ANALYSIS-BROKEN is not a detection; a silent one is an alarm of sorts
-            verdict = "miss"
+            verdict = "ok" if v.expect == "undecided" else "miss"
+        elif v.expect == "undecided":
+            verdict = "ok" if new or status == "broken" else "miss"
         elif v.expect == "fire":
             verdict = "ok" if new and (v.rule is None or any(rule.startswith(v.rule) for _, rule in new)) else "miss"
         else:
@@ -114,8 +116,9 @@ def seeded_variants(prop):
             meta, patch = os.path.join(d, "meta.json"), os.path.join(d, "patch.diff")
             if os.path.isfile(meta) and os.path.isfile(patch):
                 try:
-                    if json.load(open(meta)).get("property") == prop:
-                        out.append(V("seeded:" + name, "", "", "", expect="fire", patch=patch))
+                    md = json.load(open(meta))
+                    if md.get("property") == prop:
+                        out.append(V("seeded:" + name, "", "", "", expect="undecided" if md.get("expected_verdict") == "cannot-decide" else "fire", patch=patch))
                 except Exception:
                     pass
     return out
